@@ -20,6 +20,12 @@ KARGS = dict()
 SGD_K = "_optimize_layout_euclidean_single_epoch"
 SHARED_THMS = "src_sgd_shared_eq"
 DISTINCT_THMS = "src_sgd_distinct_eq"
+SGDG_K = "_optimize_layout_generic_single_epoch"
+# capstone corollaries of coq/link/K_sgd.v: statements of P_C07 / T_sgd restated about the translated epoch kernel itself
+LINK_COROLLARIES = ("C07_src_frame", "C07_src_rng_rows", "C07_src_rng_rows_distinct", "C07_src_clocks", "C07_src_clocks_distinct",
+                    "C07_src_idle", "C07_src_move_bound_attr", "C07_src_move_bound_attr_distinct", "C07_src_move_bound_rep",
+                    "C07_src_move_bound_rep_distinct", "C07_src_move_bound_total", "C07_src_move_bound_distinct_total", "C07_src_move_bound", "C07_src_move_bound_distinct",
+                    "C07_src_nonvacuous", "C07_src_nonvacuous_row")
 
 
 def kernel():
@@ -147,6 +153,21 @@ def run(ctx):
     lres = link.check(ctx, "layouts", {"clip": "src_clip_eq", "rdist": "src_rdist_eq", "tau_rand_int": "src_tau_rand_int_layouts_eq",
                                        SGD_K + "_shared": SHARED_THMS, SGD_K + "_distinct": DISTINCT_THMS})
     src_ready = lres.ok and not any("E_layouts" in e for e in lres.errors)
+    # the generic-output-metric epoch kernel (output_metric a function parameter, output_metric_kwds = ()), translated twice as well:
+    # coq/link/L_sgdg.v: translated source = M_sgdg.gepoch for every output metric whose gradient has the row length; capstone: the
+    # transform-case translation with move_other=False returns the reference embedding unchanged
+    lgres = link.check(ctx, "layouts_generic", {"clip": "src_clip_generic_eq", "tau_rand_int": "src_tau_rand_int_generic_eq",
+                                        SGDG_K + "_shared": "src_sgdg_shared_eq", SGDG_K + "_distinct": "src_sgdg_distinct_eq"})
+    link.check(ctx, "layouts_generic", {SGDG_K + "_shared": "gneg_iter_s", SGDG_K + "_distinct": "C07_src_generic_frame"})
+    gsrc_ready = lgres.ok and not any("E_layouts_generic" in e for e in lgres.errors)
+    for thm in LINK_COROLLARIES:
+        ob = "link:layouts:" + thm
+        ctx.obligations.append(ob)
+        bad = [a for a in lres.axioms.get(thm, []) if a not in link.coqrun.ALLOWED_AXIOMS and not ctx._primitive(a)]
+        if lres.theorems.get(thm) is True and not bad:
+            ctx.discharged.append(ob)
+        else:
+            ctx.broken.append("link[layouts]: corollary %s %s" % (thm, ("uses axioms %s" % bad) if bad else (lres.theorems.get(thm) or "is missing")))
     link.check(ctx, "utils", {"tau_rand_int": "src_tau_rand_int_eq", "norm": "src_norm_eq"})
     link.check(ctx, "umap_sup", {"make_epochs_per_sample": "src_make_epochs_per_sample_eq"})
     rng = ctx.rng
@@ -387,6 +408,8 @@ def run(ctx):
     import numba, umap.distances as Dm
     gk = numba.njit(L._optimize_layout_generic_single_epoch, fastmath=True)
     gterms, gcases = [], []
+    gsterms, gscases = [], []     # the same states run through the kernel's SOURCE by the interpreter in float64 (reference for the translated source)
+    ngsrc = 15 if ctx.tier == "quick" else 80
     for gno in range(25 if ctx.tier == "quick" else 250):
         g = gen_graph(rng, npr)
         H = g["H"].copy(); T = H if g["shared"] else g["T"].copy()
@@ -397,6 +420,23 @@ def run(ctx):
         for rep in range(3):
             pre = dict(H=H.copy(), T=T.copy(), nxt=nxt.copy(), nneg=nneg.copy(), rs=rs.copy())
             gk(eps, nxt, g["head"], g["tail"], H, T, Dm.euclidean_grad, (), H.shape[1], alpha, g["move_other"], n, nneg, epns, rs, g["nv"], g["a"], g["b"], g["gamma"])
+            if gno < ngsrc and gsrc_ready:
+                pH = pre["H"].astype(np.float64); pT = pH if g["shared"] else pre["T"].astype(np.float64)
+                pn, pg, pr = pre["nxt"].copy(), pre["nneg"].copy(), pre["rs"].copy()
+                try:
+                    with np.errstate(all="ignore"):
+                        L._optimize_layout_generic_single_epoch(eps, pn, g["head"], g["tail"], pH, pT, Dm.euclidean_grad.py_func, (), pH.shape[1], alpha,
+                                                                g["move_other"], n, pg, epns, pr, g["nv"], g["a"], g["b"], g["gamma"])
+                    edges_ = "[" + "; ".join("mkEdgeF %d%%nat %d%%nat %s %s" % (int(h), int(t), fl(e), fl(en)) for h, t, e, en in zip(g["head"], g["tail"], eps, epns)) + "]"
+                    gsterms.append("(mkCase %s %s %s %s %s %s %s %s %s %s %s %s %s %s %s %s %s %s %s)" % (
+                        fl(g["a"]), fl(g["b"]), fl(g["gamma"]), fl(alpha), fl(float(n)), zl(g["nv"]), "true" if g["move_other"] else "false",
+                        "true" if g["shared"] else "false", edges_, ll(pre["H"]), "[]" if g["shared"] else ll(pre["T"]), flist(pre["nxt"]), flist(pre["nneg"]), rngl(pre["rs"]),
+                        ll(pH), "[]" if g["shared"] else ll(pT), flist(pn), flist(pg), rngl(pr)))
+                    gscases.append(dict(kernel="generic/euclidean_grad (py_func, float64)", n=n, alpha=alpha, a=g["a"], b=g["b"], gamma=g["gamma"], move_other=g["move_other"],
+                                        shared=g["shared"], n_vertices=g["nv"], head=g["head"], tail=g["tail"], epochs_per_sample=eps, pre=pre,
+                                        post=dict(H=pH.copy(), T=pT.copy(), nxt=pn, nneg=pg, rs=pr)))
+                except (OverflowError, ValueError, ZeroDivisionError):
+                    pass             # int() of a non-finite quotient: the interpreter raises where the jitted kernel does not
             desc = dict(kernel="generic/euclidean_grad", n=n, alpha=alpha, a=g["a"], b=g["b"], gamma=g["gamma"], move_other=g["move_other"], shared=g["shared"], n_vertices=g["nv"],
                         head=g["head"], tail=g["tail"], epochs_per_sample=eps, pre=pre, post=dict(H=H.copy(), T=T.copy()))
             fired = [i for i in range(len(eps)) if pre["nxt"][i] <= n]
@@ -424,6 +464,27 @@ def run(ctx):
                 ctx.diff(gcases[s + off], {1: "Tausworthe states / number of negative draws", 2: "epoch_of_next_sample", 3: "epoch_of_next_negative_sample",
                                            4: "head positions (dev %.3g)" % (v[2 * off + 1] / 1e9), 5: "tail positions"}.get(v[2 * off], "?"))
     ctx.extra["max_position_deviation_generic"] = gdev / 1e9
+    # ---- (5a) the TRANSLATED source of the generic kernel (Src_layouts_generic.v, regenerated from the current layouts.py) run in binary64 with
+    #      output_metric := a transcription of euclidean_grad, against the interpreter running the kernel's source with euclidean_grad.py_func
+    for s in range(0, len(gsterms), 60):
+        text = hdr.replace("Import ListNotations.", "From UVS Require Import E_layouts_generic.\nImport ListNotations.", 1) + \
+            "Definition cases : list epoch_case := %s.\nEval vm_compute in map (verdict_src_gepoch %s %s) cases.\n" % (clist(gsterms[s:s + 60]), fl(SRC_PTOL), fl(CTOL))
+        bl = link.coq_eval(ctx, lgres, "cases_C07_gsrc%d" % (s // 60), text, what="translated generic epoch kernel vs the interpreter running its source")
+        if bl is None: continue
+        v = parse_zlist(bl[0])
+        if len(v) != 2 * len(gsterms[s:s + 60]):
+            ctx.broken.append("C07 translated-source (generic kernel) verdict list length mismatch"); continue
+        for off in range(len(v) // 2):
+            code, dev = v[2 * off], v[2 * off + 1]
+            ctx.traces += 1
+            ctx.extra["max_gsrc_position_deviation"] = max(ctx.extra.get("max_gsrc_position_deviation", 0), dev / 1e12)
+            if code == 6:
+                ctx.broken.append("C07: a generated generic-kernel case is outside the hypotheses of the link theorems src_sgdg_shared_eq / src_sgdg_distinct_eq")
+            elif code != -1:
+                ctx.diff(gscases[s + off], "translated source of the generic epoch kernel vs the interpreter: " +
+                         {1: "Tausworthe states", 2: "epoch_of_next_sample", 3: "epoch_of_next_negative_sample",
+                          4: "head positions (dev %.3g)" % (dev / 1e12), 5: "tail positions", 7: "returned clock arrays"}.get(code, str(code)))
+    ctx.extra["translated_generic_epoch_cases"] = len(gsterms)
     # ---- (5b) generic kernel with NON-Euclidean output metrics (haversine on the sphere, hyperboloid): the attractive move of a visited
     #      edge moves the head along the gradient of d(head, tail) in its first argument and, when move_other, the tail along ITS OWN
     #      gradient d(tail, head) -- not the negated head step, which coincides only for translation-invariant metrics.  Negative sampling
